@@ -844,3 +844,51 @@ def weak_link_flags(R, ctx, rid):
         R.ob(rid, rf, "reader:%s:%s" % (side, var), ok, "%s boundary: %s built exactly under its table row" % (side.lower(), var) if ok else
              "%s boundary: %s is built under other bit patterns than its table row (missing tests: %s; counterexample %s)" % (side.lower(), var, lost, cex),
              "%s:%s" % (rf.file, st["line"]))
+
+
+def must_pass_any(fn, frm, to, vias):
+    """every path from block `frm` to block `to` passes one of the blocks `vias`."""
+    cfg = fn.cfg()
+    if frm in vias:
+        return True
+    seen, st = {frm}, [frm]
+    while st:
+        x = st.pop()
+        for s_ in cfg.succ[x]:
+            if s_ in vias:
+                continue
+            if s_ == to:
+                return False
+            if s_ not in seen:
+                seen.add(s_)
+                st.append(s_)
+    return True
+
+
+def format_replacement(R, ctx, rid):
+    Y = ctx.yrs
+    fn = Y.fn("yrs::types::text::insert_format")
+    v = FnView(fn)
+    R.rule(rid, "R-PAIR a replaced formatting mark is accounted for: text::insert_format (behind Text::format and delta Retain with "
+                "attributes) deletes an existing mark whose key is being formatted — and on EVERY path from the key look-up "
+                "(`attrs.get(key) is Some`) to that delete either drops the key from the negated attributes (same value) or records "
+                "the mark's value in them (different value): the value the deleted mark set for the text to its right is re-inserted "
+                "after the range. A path that deletes without recording (past the end of the range, …) silently unformats what "
+                "follows; the delete itself is reached for Format content of live items only")
+    dels = [c for c in fn.calls_to("yrs::transaction::TransactionMut::delete") if kinds_reaching(Y, fn, c.bb)[0] == {"Format"}]
+    R.floor(rid, "deletes of a formatting mark in insert_format", len(dels), 1)
+    acct = [c for c in fn.calls() if re.search(r"HashMap(<.*>)?::(remove|insert)$", F.strip_generics(c.name)) and
+            term_has_call(simp_deep(v.arg(c, 0, 12)), "yrs::types::text::insert_attributes")]
+    R.floor(rid, "updates of the negated attributes in insert_format", len(acct), 2)
+    vias = {c.bb for c in acct}
+    for cs, site in ordinal_sites(dels):
+        starts = [l.to for l in F.switch_literals(fn) if l.polarity == "Some" and simp(l.term)[0] == "call" and
+                  re.search(r"HashMap(<.*>)?::get$", F.strip_generics(simp(l.term)[1])) and fn.cfg().dominates(l.bb, cs.bb)]
+        live = any(lit_call(l, "yrs::block::Item::is_deleted", False) for l in v.guards(cs.bb))
+        ok = bool(starts) and all(must_pass_any(fn, s_, cs.bb, vias) for s_ in starts) and live
+        R.ob(rid, fn, "accounted:" + site, ok,
+             "every path from the key look-up to the delete updates the negated attributes (%d update sites)" % len(acct) if ok else
+             "a formatting mark is deleted on a path that neither drops its key from nor records its value in the negated attributes "
+             "(look-up found: %s, live only: %s)" % (bool(starts), live), cs.loc())
+    kinds = {F.strip_generics(c.name).rsplit("::", 1)[-1] for c in acct}
+    R.ob(rid, fn, "both-cases", kinds >= {"remove", "insert"}, "negated attributes are updated by %s" % sorted(kinds))
